@@ -219,6 +219,9 @@ class Soap11(XmlDocument):
             raise Fault('Client.SoapError', "Soap Body must not be empty")
 
         if body_document.tag == '{%s}Fault' % self.ns_soap_env:
+            if message is XmlDocument.REQUEST:
+                raise Fault('Client.SoapError', "A request can't be a Fault")
+
             ctx.in_body_doc = body_document
 
         else:
